@@ -336,6 +336,8 @@ func run(w http.ResponseWriter, r *http.Request, o *Obs, h *H) {
 				w.Header().Set(s.K, s.V)
 			case "Del":
 				w.Header().Del(s.K)
+			case "Copy": // the body streamed with io.Copy from a source that has no WriteTo: uses the writer's ReadFrom if it has one
+				io.Copy(w, io.LimitReader(strings.NewReader(strings.Repeat("y", s.N)), int64(s.N)))
 			case "Mut": // edits the value slice of a header in place instead of calling Set
 				if vs := w.Header()[s.K]; len(vs) > 0 {
 					vs[0] = s.V
